@@ -183,6 +183,21 @@ def twolocks(cls):
     return ['P %s_2locks %s | X:x1:1 S:s2:2 U:s2 U:x1 | S:s3:1 U:s3 X:x4:2 U:x4 || X:x11:1 U:x11 X:x12:2 U:x12' % (cls, cls)]
 
 
+def twolock_follow(cls, tag='tl'):
+    """one thread uses lock 1 (while another thread queues up behind it or shares it) and then lock 2: whatever a lock keeps
+    per thread (MCS: the cached queue node with its link and flag bits) is carried from one lock to the next"""
+    out = []
+    f2 = '|| X:x11:1 U:x11 X:x12:2 U:x12' if cls != 'opt' else '|| GV:o10:1 X:x11:1 U:x11 GV:o10:1 X:x12:2 U:x12'
+    for a in ('S', 'SIX', 'X', 'UPG', 'DNG'):
+        for b in MODES:
+            for c in MODES:
+                g = G()
+                t1 = script(a, g, 1) + ' ' + script(b, g, 2)
+                t2 = script(c, g, 1)
+                out.append('P %s_%s_%s-%s_%s %s | %s | %s %s' % (cls, tag, a, b, c, cls, t1, t2, f2))
+    return out
+
+
 def random_programs(cls, n, seed, threads=3, maxops=3):
     """seeded random well-formed programs: each thread a sequence of sections with optional conversions"""
     rnd = random.Random(seed)
